@@ -89,6 +89,7 @@ type rtWorld struct {
 	active int
 	// handed: TLS name -> the transport last handed out for it and when
 	handed map[string]handedOut
+	alias  map[string]string
 }
 
 type handedOut struct {
@@ -310,6 +311,14 @@ func (w *rtWorld) getTransport(ts *rtTask, i int, name string) {
 	id := w.client.VerifGetTransport(name)
 	now := r.Now()
 	w.mu.Lock()
+	// addresses differ from process to process: name transports in order of appearance
+	if w.alias == nil {
+		w.alias = map[string]string{}
+	}
+	if _, ok := w.alias[id]; !ok {
+		w.alias[id] = fmt.Sprintf("transport#%d", len(w.alias)+1)
+	}
+	id = w.alias[id]
 	prev, had := w.handed[name]
 	w.handed[name] = handedOut{id: id, at: start, task: ts.name}
 	w.mu.Unlock()
